@@ -35,6 +35,8 @@ type runRes struct {
 	root          string
 	panic         string
 	panicAtRevert bool
+	tok           string
+	rip           string
 	logSize       string
 	dirty         map[string]bool   // dirty set right before the final root
 	empty         map[string]string // Empty(addr) right before the final root
@@ -96,6 +98,9 @@ func runOnce(header, prefix, region, suffix []string, withRegion, withQueries bo
 		ex(l)
 	}
 	res.dirty, res.empty, res.exist = map[string]bool{}, map[string]string{}, map[string]string{}
+	if f := strings.Fields(header[0]); len(f) > 2 {
+		res.tok, res.rip = f[1], f[2]
+	}
 	for _, a := range addrs {
 		res.exist[a] = ex("exist " + a)
 		res.empty[a] = ex("empty " + a)
@@ -314,6 +319,36 @@ func (g *G) SlotLifecycle() (prefix, region, suffix []string) {
 	return
 }
 
+// writesTo: the region contains an op whose undo re-runs a setter on `addr` (setNonce / setData /
+// setNFTSetDefinition / setBalance on the token contract) and thereby leaves it in the dirty set. A region
+// that only touches the account (zero-amount AddFT) or only reads it does not: touchChange.undo takes the
+// account out of the dirty set again when it was not dirty before.
+func writesTo(region []string, addr, tok string) bool {
+	for _, l := range region {
+		f := strings.Fields(l)
+		if len(f) < 2 {
+			continue
+		}
+		switch f[0] {
+		case "setnonce", "incnonce", "setdata", "setstate", "setcode", "suicide", "setft":
+			if f[1] == addr {
+				return true
+			}
+		case "addft", "subft":
+			if f[1] == addr && len(f) == 4 && f[3] != "0" {
+				return true
+			}
+		}
+		switch f[0] {
+		case "addbal", "subbal", "setbal", "transfer", "suicide":
+			if addr == tok {
+				return true
+			}
+		}
+	}
+	return false
+}
+
 func zeroTouch(region []string, addr string) bool {
 	for _, l := range region {
 		f := strings.Fields(l)
@@ -353,8 +388,11 @@ func classifyRoot(A, B runRes, prefix, region []string) (string, string) {
 	}
 	for addr, lb := range mb {
 		if _, ok := ma[addr]; !ok {
-			if A.dirty[addr] && !B.dirty[addr] && A.empty[addr] == "true" && A.exist[addr] == "true" {
+			if A.dirty[addr] && !B.dirty[addr] && A.empty[addr] == "true" && A.exist[addr] == "true" && writesTo(region, addr, A.tok) {
 				return "revert-leaves-dirty-mark", "account " + addr + " = " + lb + " (nonce 0, no code, only storage: empty() by this code's definition) stays in the dirty set after the reverted region and is deleted by IntermediateRoot(true)"
+			}
+			if addr == A.rip && zeroTouch(region, addr) && A.dirty[addr] && !B.dirty[addr] && A.empty[addr] == "true" {
+				return "ripemd-touch-not-undone", "touchChange.undo skips the address `ripemd` (inherited EIP-161 exception): after a reverted zero-amount AddFT it stays touched and dirty, and being empty() it is deleted: " + lb
 			}
 			return "missing-account-after-revert", "account " + addr + " = " + lb + " is missing after the reverted region"
 		}
@@ -400,6 +438,10 @@ func search(args map[string]string) {
 				[]string{"setstate " + a1 + " " + k32 + " " + v(3)}, nil, false, false, false},
 			{[]string{"setstate " + a1 + " " + k32 + " " + v(1), "commit 1", "reopen", "setstate " + a1 + " " + k32 + " " + v(2)},
 				[]string{"committed " + a1 + " " + k32}, nil, true, false, false},
+			// no finding: a committed storage-only account only TOUCHED inside the region; touchChange.undo takes it
+			// out of the dirty set again (seeded regression C04-e recorded prevDirty wrongly)
+			{[]string{"setdata " + a1 + " 6b 07", "addft " + a1 + " 663a78 5", "commit 1", "reopen"}, []string{"addft " + a1 + " 663a78 0"}, nil, false, false, false},
+			{[]string{"setdata " + a1 + " 6b 07", "addft " + a1 + " 663a78 5", "commit 1", "reopen"}, []string{"snapshot", "addft " + a1 + " 663a7979 0", "revert @0", "addft " + a1 + " 663a78 0"}, nil, true, false, false},
 			// no finding: pending deletion of a committed slot, rewritten in the region (seeded regression C04-a)
 			{[]string{"setnonce " + a1 + " 1", "setdata " + a1 + " 6b6b a045", "commit 1", "reopen", "setdata " + a1 + " 6b6b -"},
 				[]string{"setdata " + a1 + " 6b6b 09"}, nil, true, false, false},
@@ -425,7 +467,9 @@ func search(args map[string]string) {
 			"aladdr " + a1, "alslot " + a1 + " " + h1, "tset " + a1 + " " + h1 + " " + h1, "bal " + a1, "getdata " + a1 + " 6b",
 			"setstate " + a1 + " " + h1 + " " + h1,
 		}
-		bases := [][]string{{}, {"setnonce " + a1 + " 1", "setdata " + a1 + " 6b 07", "addrefund 9", "commit 1", "reopen", "addrefund 9"}}
+		bases := [][]string{{}, {"setnonce " + a1 + " 1", "setdata " + a1 + " 6b 07", "addrefund 9", "commit 1", "reopen", "addrefund 9"},
+			// a committed storage-only account (nonce 0, no code), reopened and not read: empty() by this code's definition
+			{"setdata " + a1 + " 6b 07", "addft " + a1 + " 663a78 5", "commit 1", "reopen"}}
 		for _, base := range bases {
 			for _, op1 := range alphabet {
 				for _, op2 := range alphabet {
